@@ -108,10 +108,15 @@ Definition cookies_ok (q : request) (s' : st) (res : result (option nat)) (cks :
   (forall v, In (CkLive v) cks ->
      exists o ob rv, res = Ok (Some o) /\ hget s' o = Some ob /\ o_id ob = v /\
                      L s' v = Some rv /\ r_ref rv = None) /\
-  (In CkDelete cks -> exists k, q_cookie q = CKey k /\ L s' k = None).
+  (In CkDelete cks -> exists k, q_cookie q = CKey k /\ L s' k = None) /\
+  (forall o, res = Ok (Some o) -> exists ob, hget s' o = Some ob /\ r_ref (o_rec ob) = None) /\
+  (forall o, res = Ok (Some o) -> cks = [] -> exists ob, hget s' o = Some ob /\ q_cookie q = CKey (o_id ob)).
 
-Lemma cookies_ok_nil q s' res : cookies_ok q s' res [].
-Proof. split; intros; contradiction. Qed.
+(* no cookies, no session *)
+Lemma cookies_ok_nil q s' res : (forall o, res <> Ok (Some o)) -> cookies_ok q s' res [].
+Proof.
+  intro H. split; [|split; [|split]]; intros; try contradiction; exfalso; eapply H; eassumption.
+Qed.
 
 (* the part of Start that runs when no session was found (or it was destroyed) *)
 Definition tail_none (s : st) (q : request) (cks : list cookie) : st * result (option nat) * list cookie :=
@@ -127,7 +132,7 @@ Lemma tail_none_ok s1 q cks0 s' res cks :
 Proof.
   intros Hp Hnd Hfr Hcks E. unfold tail_none in E. destruct (q_create q).
   - destruct (create_ff s1 q Hp Hnd Hfr) as [s2 (Ec & Hg & HL & _ & Hk)]. cbn zeta in *.
-    rewrite Ec in E. injection E as <- <- <-. split.
+    rewrite Ec in E. injection E as <- <- <-. split; [|split; [|split]].
     + intros v Hin. assert (v = KGen (supply s1)).
       { apply in_app_or in Hin as [Hin|[Hin|[]]]; [|congruence].
         destruct Hcks as [->|[-> _]]; [contradiction|]. destruct Hin as [Hin|[]]. discriminate. }
@@ -137,10 +142,14 @@ Proof.
     + intros Hin. destruct Hcks as [->|[-> [k (Hq & Hne & Hc & Hs)]]].
       * destruct Hin as [Hin|[]]. discriminate.
       * exists k. split; [exact Hq|]. apply Hk; assumption.
-  - injection E as <- <- <-. split.
+    + intros o Ho. injection Ho as <-. eexists. split; [exact Hg | reflexivity].
+    + intros o _ Hn. apply app_eq_nil in Hn as [_ Hn]. discriminate.
+  - injection E as <- <- <-. split; [|split; [|split]].
     + intros v Hin. destruct Hcks as [->|[-> _]]; [contradiction|]. destruct Hin as [Hin|[]]. discriminate.
     + intros Hin. destruct Hcks as [->|[-> [k (Hq & Hne & Hc & Hs)]]]; [contradiction|].
       exists k. split; [exact Hq|]. rewrite (L_uncached _ _ Hc). exact Hs.
+    + intros o Ho. discriminate.
+    + intros o Ho. discriminate.
 Qed.
 
 Lemma L_hupd_nonref s o ob f k rk :
@@ -181,16 +190,19 @@ Proof.
            rewrite (qu_now _ _ Q) in E. unfold valid_for in Hvalid. rewrite Hvalid in E. cbn [negb] in E.
            rewrite Href in E. cbn [negb andb] in E.
            destruct (sat_add (c_idexpiry (conf s)) (c_grace (conf s)) <=? since (r_created r) (now s))%Z.
-           { destruct (cache_delete s1 k) as [s2 ok]. destruct ok; injection E as <- <- <-; apply cookies_ok_nil. }
+           { destruct (cache_delete s1 k) as [s2 ok].
+             destruct ok; injection E as <- <- <-; apply cookies_ok_nil; discriminate. }
            destruct (follow (S (N.to_nat (supply s1))) s1 o0) as [s2 [o'|e|e]] eqn:Ef;
-             try (injection E as <- <- <-; apply cookies_ok_nil).
+             try (injection E as <- <- <-; apply cookies_ok_nil; discriminate).
            destruct (follow_ok _ s1 o0 _ s2 o' (qu_plan _ _ Q) (qu_cok _ _ Q) (qu_ndc _ _ Q)
                        (next_free_quiet _ _ Q (fresh_next_free s Hf)) Pobj Ef)
              as [Q2 [ob' [Hg2 [Hr2 Hcase]]]].
            rewrite Hg2 in E. cbn [app] in E. injection E as <- <- <-.
            destruct Hcase as [[-> ->]|HL2].
            { assert (ob' = mkObj k r) by congruence. subst ob'. cbn in Hr2. congruence. }
-           split; [|intros [Hin|[]]; discriminate].
+           split; [|split; [intros [Hin|[]]; discriminate|split; [|intros; discriminate]]].
+           2:{ intros o Ho. injection Ho as <-. eexists. split; [apply (hget_hupd_same s2 o' ob' _ Hg2)|].
+               exact Hr2. }
            intros v [Hin|[]]. injection Hin as <-.
            destruct (L_hupd_nonref s2 o' ob'
                        (fun r0 => set_ua (set_ip (set_access r0 (now s2)) (q_addr q)) (q_ua q))
@@ -203,7 +215,8 @@ Proof.
               destruct (start_rotate s q k r Hp Hco (conj Hndc Hnds) Hf Hq HL Href Hvalid Edue)
                 as [s2 [o (E2 & _ & _ & Hg & HLj & _)]].
               rewrite E in E2. injection E2 as -> -> ->.
-              split; [|intros [Hin|[]]; discriminate].
+              split; [|split; [intros [Hin|[]]; discriminate|split; [|intros; discriminate]]].
+              2:{ intros o' Ho. injection Ho as <-. eexists. split; [exact Hg | exact Href]. }
               intros v [Hin|[]]. injection Hin as <-.
               eexists o, _, _. split; [reflexivity|]. split; [exact Hg|]. split; [reflexivity|].
               split; [exact HLj|]. destruct (cached s2 (KGen (supply s))); cbn; exact Href.
@@ -212,8 +225,13 @@ Proof.
               rewrite (qu_now _ _ Q) in E. unfold valid_for in Hvalid. rewrite Hvalid in E. cbn [negb] in E.
               rewrite Href, Edue in E. cbn [negb andb] in E.
               destruct (sat_add (c_idexpiry (conf s)) (c_grace (conf s)) <=? since (r_created r) (now s))%Z.
-              { destruct (cache_delete s1 k) as [s2 ok]. destruct ok; injection E as <- <- <-; apply cookies_ok_nil. }
-              injection E as <- <- <-. apply cookies_ok_nil.
+              { destruct (cache_delete s1 k) as [s2 ok].
+                destruct ok; injection E as <- <- <-; apply cookies_ok_nil; discriminate. }
+              injection E as <- <- <-. split; [|split; [|split]]; try (intros; contradiction).
+              ** intros o Ho. injection Ho as <-. eexists.
+                 split; [apply (hget_hupd_same s1 o0 _ _ Pobj) | exact Href].
+              ** intros o Ho _. injection Ho as <-. eexists.
+                 split; [apply (hget_hupd_same s1 o0 _ _ Pobj) | exact Hq].
       * (* not valid: destroyed, then as if nothing had been found *)
         assert (E' : start s q = tail_none (fst (cache_delete s1 k)) q [CkDelete]).
         { unfold start, tail_none. rewrite Hq, Eg. cbn [negb]. rewrite Pobj. cbn [o_rec].
@@ -348,4 +366,104 @@ Proof.
               then follow (S (N.to_nat (supply s2))) s2 o else (s2, Ok o)) as [s3 fr].
     destruct fr as [o'| |]; [|exact Hstep|exact Hstep].
     destruct (r_ref (o_rec ob)); [|exact Hstep]. destruct (hget s3 o'); [|exact Hstep]. cbn. auto with plain.
+Qed.
+
+(* ---------- a Start that returns a session sets nothing or ends with a live
+   cookie (any state, any faults) *)
+
+Definition live_last (cks : list cookie) : Prop := cks = [] \/ exists pre v, cks = pre ++ [CkLive v].
+
+Lemma regenerate_ok_cks s o s' u cks : regenerate s o = (s', Ok u, cks) -> exists v, cks = [CkLive v].
+Proof.
+  unfold regenerate. destruct (hget s o) as [ob|]; [|discriminate].
+  destruct (gen_id s) as [s1 nid]. destruct (cache_set _ o) as [s2 ok].
+  destruct ok; cbn [negb]; [|discriminate].
+  destruct (hget s2 o) as [ob2|]; [|discriminate].
+  destruct (halloc _ _) as [s3 ro]. destruct (cache_set s3 ro) as [s4 ok2].
+  destruct ok2; cbn [negb]; [|discriminate]. intro H. injection H as _ _ <-. eexists. reflexivity.
+Qed.
+
+Lemma create_ok_cks s q s' x cks : create_session s q = (s', Ok x, cks) -> exists v, cks = [CkLive v].
+Proof.
+  unfold create_session. destruct (gen_id s) as [s1 nid]. destruct (halloc _ _) as [s2 o].
+  destruct (cache_set s2 o) as [s3 ok]. destruct ok; cbn [negb]; [|discriminate].
+  intro H. injection H as _ _ <-. eexists. reflexivity.
+Qed.
+
+Lemma start_last_live s q s' o cks : start s q = (s', Ok (Some o), cks) -> live_last cks.
+Proof.
+  unfold start.
+  assert (H0 : exists s1 found cks0 failed,
+             match q_cookie q with
+             | CKey k => let '(s0, r) := cache_get s k in
+                         match r with
+                         | None => (s0, None, [], true)
+                         | Some None => (s0, None, [CkDelete], false)
+                         | Some (Some o) => (s0, Some (k, o), [], false)
+                         end
+             | _ => (s, None, [], false)
+             end = (s1, found, cks0, failed) /\ (found <> None -> cks0 = [])).
+  { destruct (q_cookie q) as [|k|n]; [do 4 eexists; split; [reflexivity | auto]| |
+                                      do 4 eexists; split; [reflexivity | auto]].
+    destruct (cache_get s k) as [s0 [[o1|]|]]; do 4 eexists; (split; [reflexivity | auto]); congruence. }
+  destruct H0 as [s1 [found [cks0 [failed [-> Hc0]]]]].
+  destruct failed; [discriminate|].
+  assert (Htail : forall s2 cks1,
+            (if q_create q then let '(s0, res, nck) := create_session s2 q in (s0, res, cks1 ++ nck)
+             else (s2, Ok None, cks1)) = (s', Ok (Some o), cks) -> live_last cks).
+  { intros s2 cks1. destruct (q_create q); [|discriminate].
+    destruct (create_session s2 q) as [[s3 r] nck] eqn:Ec. intro H. injection H as _ -> <-.
+    destruct (create_ok_cks _ _ _ _ _ Ec) as [v ->]. right. eexists _, _. reflexivity. }
+  destruct found as [[k o1]|]; [|apply Htail].
+  rewrite (Hc0 ltac:(discriminate)). clear Hc0.
+  destruct (hget s1 o1) as [ob|]; [|discriminate].
+  destruct (negb _).
+  - destruct (destroy s1 o1 (had_cookie q)) as [[s2 r] dck].
+    destruct r; [|discriminate|discriminate]. apply Htail.
+  - match goal with |- (match ?X with _ => _ end) = _ -> _ => set (stepv := X) end.
+    assert (Hstep : forall s2 u cks1, stepv = (s2, Ok u, cks1) -> live_last cks1).
+    { unfold stepv. intros s2 u cks1. destruct (_ && _).
+      - destruct (regenerate s1 o1) as [[s3 r] rck] eqn:Er. intro H. injection H as _ -> <-.
+        destruct (regenerate_ok_cks _ _ _ _ _ Er) as [v ->]. right. exists [], v. reflexivity.
+      - destruct (_ <=? _)%Z.
+        + destruct (cache_delete s1 k) as [s3 ok]. destruct ok; discriminate.
+        + intro H. injection H as _ _ <-. left. reflexivity. }
+    destruct stepv as [[s2 step] cks1]. destruct step as [u| |]; [|discriminate|discriminate].
+    specialize (Hstep s2 u cks1 eq_refl).
+    destruct (if match r_ref (o_rec ob) with Some _ => true | None => false end
+              then follow (S (N.to_nat (supply s2))) s2 o1 else (s2, Ok o1)) as [s3 fr].
+    destruct fr as [o'| |]; [|discriminate|discriminate].
+    intro H. injection H as _ _ <-.
+    destruct (r_ref (o_rec ob)); [|exact Hstep]. destruct (hget s3 o'); [|exact Hstep].
+    right. eexists _, _. reflexivity.
+Qed.
+
+(* Start never hands out a replaced-ID record as the session (D2 repaired) *)
+Corollary start_never_placeholder s q s' o cks :
+  plan s = [] -> cache_ok s -> nodup_ok s -> fresh_ok s ->
+  q_cookie q <> CKey (KGen (supply s)) ->
+  start s q = (s', Ok (Some o), cks) ->
+  exists ob, hget s' o = Some ob /\ r_ref (o_rec ob) = None.
+Proof.
+  intros Hp Hco Hnd Hf Hq E.
+  destruct (start_cookies_ok s q s' _ cks Hp Hco Hnd Hf Hq E) as [_ [_ [H _]]]. apply H. reflexivity.
+Qed.
+
+(* a browser that applies the response's cookies holds the ID of the session
+   the request was given *)
+Lemma apply_cookies_last jar pre v : apply_cookies jar (pre ++ [CkLive v]) = CKey v.
+Proof. unfold apply_cookies. rewrite fold_left_app. reflexivity. Qed.
+
+Theorem start_jar s q s' o cks :
+  plan s = [] -> cache_ok s -> nodup_ok s -> fresh_ok s ->
+  q_cookie q <> CKey (KGen (supply s)) ->
+  start s q = (s', Ok (Some o), cks) ->
+  exists ob, hget s' o = Some ob /\ apply_cookies (q_cookie q) cks = CKey (o_id ob).
+Proof.
+  intros Hp Hco Hnd Hf Hq E.
+  destruct (start_cookies_ok s q s' _ cks Hp Hco Hnd Hf Hq E) as [H1 [_ [_ H4]]].
+  destruct (start_last_live s q s' o cks E) as [->|[pre [v ->]]].
+  - destruct (H4 o eq_refl eq_refl) as [ob [Hg Hk]]. exists ob. split; [exact Hg|]. exact Hk.
+  - destruct (H1 v) as [o1 [ob [rv (Eo & Hg & Hid & _)]]]; [apply in_or_app; right; left; reflexivity|].
+    injection Eo as <-. exists ob. split; [exact Hg|]. rewrite apply_cookies_last, Hid. reflexivity.
 Qed.
